@@ -478,6 +478,32 @@ def run_case(c):
                 if badcols:
                     res.violation('samples:healthy-row-stats-differ', '%s: statistics of healthy row %s differ from its single-row run in %s' % (what, r['id'], badcols[:4]), one)
                     ok = False
+        # the same table processed without the optional beads table (the acquisition-settings comparison is then not made): every
+        # other fault is still the row's error, every healthy row still equals its single-row result
+        if ok and rows and (len(rows) <= 2 or any(f.startswith('mef-') for f in faults) or c.get('tier') == 'thorough'):
+            inst_, bt_, bs_, fx_ = beads_context(variant)
+            wb_nb = os.path.join(ensure_files(), 'samples_nb_%d.xlsx' % os.getpid())
+            wg.write_workbook(wb_nb, [I1, I2], [], rows, unit_channels_cols=[FL1, FL2])
+            st_nb = ui.read_table(wb_nb, 'Samples', 'ID')
+            try:
+                with warnings.catch_warnings():
+                    warnings.simplefilter('ignore')
+                    s_nb = ui.process_samples_table(st_nb, inst_, mef_transform_fxns=fx_, base_dir=ensure_files(), verbose=False, plot=False)
+            except Exception as e:
+                res.violation('samples:no-beads-table:batch-aborted:%s' % type(e).__name__, '%s, processed without beads_table: %s escaped: %s' % (what, type(e).__name__, e), one)
+                return res
+            needs_bt = ('other-instrument', 'amp-differs', 'voltage-differs', 'voltage-zero', 'mef-nocolumn')
+            for r, f, p in zip(rows, faults, order):
+                s2 = s_nb.get(r['id'])
+                if f in needs_bt:
+                    continue
+                if f != 'ok':
+                    if not isinstance(s2, ui.ExcelUIException):
+                        res.violation('samples:no-beads-table:fault-not-reported:%s' % f, '%s, processed without beads_table: row %s (%s) yielded %s instead of a row error' % (what, r['id'], f, type(s2).__name__), one)
+                        ok = False
+                elif isinstance(s2, Exception) or fp(s2) != single_fp(p, variant)[0]:
+                    res.violation('samples:no-beads-table:healthy-row-differs', '%s, processed without beads_table: healthy row %s differs from its single-row result (%s)' % (what, r['id'], s2 if isinstance(s2, Exception) else 'other events'), one)
+                    ok = False
         if not rows:
             if len(samples) != 0 or len(st) != 0:
                 res.violation('samples:empty-table', 'an empty Samples table yields %d results' % len(samples), one)
